@@ -65,6 +65,9 @@ CLAIMS = {
  'C17': ("Decides the structural part of pagination: every featureSet mutation reaches sortedKeys = nil on all paths (directly, or through a monotone constant flag set in the same block and tested on every path to return); no writer of features/sortedKeys outside featureSet; all()/above() rebuild the index first; above() = binary search + one increment exactly when found (strictly greater); paginateList stops at the (pageSize+1)-th element before appending, returns without cursor when fewer were seen, and encodes the id of the last returned item; every feature-set access (including sets passed to helpers and closures run by changeAndNotify) holds the owner's lock; a decode error of the cursor is mapped to ErrInvalidParams on every failure branch; the client iterator yields every item, copies NextCursor before every further fetch, stops on empty cursor and on error. "
          "Not decided: gob's behaviour on adversarial bytes (library); exactly-once over all mutation histories as a whole.",
          "must-pass-through with flag sensitivity, field-writer ownership, interprocedural must-locksets incl. closure-under-lock, structural keyset-shape rules", "§3 C17"),
+ 'C20': ("Decides the store's structural invariants: every access to store/nBytes/maxBytes and to any list's size/first/data holds the store mutex (helpers verified as requires-lock through all their callers); accounting pairs (appendData ↔ nBytes += len(d); removeFirst result ↔ nBytes -= r; SessionClosed subtracts every list's size before deleting); list fields have exactly two writers with the expected single updates (size shrinks on removal, oldest first, first++); After's offset is index + 1 - first in linear normal form, < 0 → ErrEventsPurged, >= len → empty, suffix cloned under the lock, error yielded alone, consumers called outside the lock; Append purges before appending, SetMaxBytes purges, purge loops while nBytes > maxBytes through removeFirst on non-empty lists. "
+         "Not decided: equivalence with a reference model over all histories.",
+         "interprocedural must-locksets, accounting-pair post-dominance, linear normal form of index arithmetic, field-writer enumeration", "§3 C20"),
 }
 
 REASONS = {}
